@@ -421,6 +421,7 @@ func subsets(xs []string) [][]string {
 func runC16(ctx *Ctx) error {
 	ctx.Res.Rule = "exhaustive: all tag assignments (subsets of {a,b,c}) of 1..2 operations x all include/exclude tag lists over {a,b,c,z}; the same with ids {OpA,OpB} x all include/exclude id lists over {OpA,OpB,Nope}; " +
 		"then 3-operation documents with mixed tag+id filters (random), and full Generate runs on 7 frameworks checking ServerInterface, ClientInterface, embedded-spec operations, pruned schemas and, on paths that declare shared parameters (a component header parameter and an inline query parameter), the parameter object of every kept operation and the path item of the embedded specification; non-trivial = some filter list non-empty and at least one operation"
+	ctx.Res.Rule += " Session 9: TRANS Gen/Pipeline.lean and Gen/FilterRules.lean; tag filters through the command-line tool in three configuration styles (tags with blanks); a second generation of one loaded document under a disjoint filter declares what it refers to."
 	tagSets := subsets([]string{"a", "b", "c"})
 	lists := subsets([]string{"a", "b", "c", "z"})
 	mk := func(i int, tags []string) fop {
